@@ -1,7 +1,7 @@
 (* Canonical JSON rendering of the model's observable results, compared with what the Rust harness
    prints for the implementation.  Pure printing; nothing here is used by a theorem. *)
 From Slinky Require Import Model.Types Model.Parse Model.Runtime Model.Script Model.Writer Model.Exports.
-Open Scope string_scope.
+Local Open Scope string_scope.
 
 Definition hex2 (n : nat) : string :=
   String (hex_digit (N.of_nat (n / 16))) (String (hex_digit (N.of_nat (n mod 16))) "").
@@ -157,7 +157,7 @@ Definition jres {A} (f : A -> string) (r : res A) : string :=
 
 Definition jwriter (rt : runtime) (st : settings) (w : writer_out) : string :=
   jobj [("script", jstr (script_text w));
-        ("paths", jlist (fun p => jstr (display p)) (wo_paths w));
+        ("paths", jlist (fun p => jstr (join "/" p)) (wo_paths w));
         ("symbols", jlist jstr (linker_symbols w));
         ("header", jstr (header_text rt st w));
         ("deps", jres (fun t => jopt (fun t => jstr (deps_text rt w t)) t)
